@@ -22,14 +22,16 @@ import time
 import vlib
 
 LEVEL = "model_checking"
-PARTS = ["vector", "list", "deque", "assoc", "static", "ranges", "strings", "containers"]
+PARTS = ["vector", "list", "deque", "assoc", "static", "ranges", "strings", "containers", "extension", "foldtables"]
 SOURCES = ["c16_algo.cpp", "c16_cont.cpp", "c16_src_vector.cpp", "c16_src_list.cpp", "c16_src_deque.cpp",
-           "c16_src_assoc.cpp", "c16_src_static.cpp", "c16_src_ranges.cpp"]
+           "c16_src_assoc.cpp", "c16_src_static.cpp", "c16_src_ranges.cpp", "c16_ext.cpp"]
 GUARDS = [("split", "SplitJoinInverse"), ("bsearch", "BinarySearchLaws"), ("reverse", "ReverseAntiHom"),
           ("reverse2", "ReverseInvolution"), ("remove", "RemoveLaws"), ("unique", "UniqueLaws"),
           ("foldbreak", "FoldBreakPrefix"), ("findopt", "SearchLaws"), ("atopt", "AtOptionalLaws"),
           ("mapopt", "MapLaws"), ("fromrange", "ArrayLaws"), ("setunion", "SetAlgebra"),
-          ("joinmap", "MapLawsAssoc")]
+          ("joinmap", "MapLawsAssoc"), ("equal", "ExtensionSeqLaws"), ("popfront", "ExtensionSeqLaws"),
+          ("text", "ExtensionSeqLaws"), ("indexmap", "IndexMapLaws"), ("insertmap", "ExtensionMapLaws"),
+          ("insertset", "ExtensionSetLaws")]
 
 
 def compiles(probe):
@@ -47,7 +49,8 @@ def build(ctx):
     defs = []
     for key, probe, macro, what in (
             ("array_append_accepts_lvalues", "c16_probe_append.cpp", "C16_APPEND_LVALUE", "fcppt::array::append/join/push_back"),
-            ("tuple_concat_accepts_lvalues", "c16_probe_concat.cpp", "C16_CONCAT_LVALUE", "fcppt::tuple::concat")):
+            ("tuple_concat_accepts_lvalues", "c16_probe_concat.cpp", "C16_CONCAT_LVALUE", "fcppt::tuple::concat"),
+            ("tuple_apply_accepts_lvalues", "c16_probe_tuple_apply.cpp", "C16_TUPLE_APPLY_LVALUE", "fcppt::tuple::apply")):
         ok = compiles(probe)
         ctx.extra[key] = ok
         if ok:
@@ -62,6 +65,12 @@ def model_checks(ctx):
     vlib.tlc_mc(ctx, "MC_Algorithms", "MC_Algorithms_seq.cfg")
     vlib.tlc_mc(ctx, "MC_Algorithms", "MC_Algorithms_set.cfg")
     vlib.tlc_mc(ctx, "MC_Algorithms", "MC_Algorithms_map.cfg")
+    # container::index_map as a state machine (all reachable vectors over {0,1,2} of size <= 4)
+    vlib.tlc_mc(ctx, "MC_Algorithms", "MC_Algorithms_indexmap.cfg", deadlock=False)
+    r = vlib.tlc("MC_Algorithms", "MC_Algorithms_bug_indexmap_sm.cfg", workers=2, deadlock=False, tag="MC_Algorithms_bug_indexmap_sm")
+    if not r.property_violated:
+        raise vlib.Infra("vacuity guard: MC_Algorithms_bug_indexmap_sm.cfg did not violate IMMonotone")
+    ctx.extra.setdefault("vacuity_guards", []).append({"cfg": "MC_Algorithms_bug_indexmap_sm.cfg", "violates": "IMMonotone"})
     if thorough:
         vlib.tlc_mc(ctx, "MC_Algorithms", "MC_Algorithms_seq_big.cfg", timeout=1800)
         vlib.tlc_mc(ctx, "MC_Algorithms", "MC_Algorithms_set_big.cfg", timeout=1800)
@@ -77,6 +86,29 @@ def model_checks(ctx):
         if inv not in r.invariant_violated:
             raise vlib.Infra("vacuity guard: MC_Algorithms_bug_%s.cfg did not violate %s" % (name, inv))
         ctx.extra.setdefault("vacuity_guards", []).append({"cfg": "MC_Algorithms_bug_%s.cfg" % name, "violates": inv})
+
+
+def in_scope_kinds():
+    """The per-record-kind in_scope flag lives in the judge (spec/AlgorithmsJudge.tla, InScope ==): only these
+    kinds can produce a VIOLATION; rejections of every other kind are observations."""
+    txt = open(os.path.join(vlib.SPEC, "AlgorithmsJudge.tla")).read()
+    m = re.search(r"^InScope ==(.*?)^(?:ObservedFields|Infra) ==", txt, re.S | re.M)
+    if not m:
+        raise vlib.Infra("cannot find InScope in the judge module")
+    body = re.sub(r"\\\*[^\n]*", "", m.group(1))
+    return set(re.findall(r'"([^"]+)"', body))
+
+
+def observe(ctx, sig, what):
+    """out-of-statement disagreement: recorded, never a VIOLATION"""
+    obs = ctx.extra.setdefault("observations", {"count": 0, "by_signature": {}, "samples": []})
+    obs["count"] += 1
+    obs["by_signature"][sig] = obs["by_signature"].get(sig, 0) + 1
+    if len(obs["samples"]) < 20 and obs["by_signature"][sig] <= 2:
+        obs["samples"].append(what[:600])
+    if obs["by_signature"][sig] == 1:
+        print("OBSERVATION property=C16 (outside the statement, not a verdict) signature: %s" % sig)
+        print("  what: %s" % what[:500])
 
 
 def signature(b):
@@ -99,7 +131,7 @@ def class_of(e):
     return (e["f"], e.get("src", e.get("kind", "")), e.get("tgt", e.get("cat", "")), n, early, shape)
 
 
-OBSERVED = ("r", "st", "log", "elem", "inserted", "calls", "after", "present")
+OBSERVED = ("r", "st", "log", "elem", "inserted", "calls", "after", "present", "null", "len", "first", "size", "unsafe", "get", "iter", "data", "min", "max")
 
 
 def corrupted(x):
@@ -126,7 +158,7 @@ def judge_guard(ctx, module, cfg, chosen):
     bad = {b["l"]: b for b in vlib.judge_trace(ctx, module, cfg, path, boundary_key=None, nchunks=1)}
     for i, k in enumerate(keys):
         b = bad.get(i + 1)
-        if b is None or ("wrong-" + k[1]) not in b["why"]:
+        if b is None or not ({"wrong-" + k[1], "observed-wrong-" + k[1]} & set(b["why"])):
             raise vlib.Infra("judge vacuity guard: corrupted %s of a %s record was not rejected: %s" % (
                 k[1], k[0], json.dumps(chosen[k])[:300]))
     ctx.extra["judge_guard_corrupted_records_rejected"] = len(keys)
@@ -147,7 +179,8 @@ def judge_parts(ctx, results):
                 fn = mm.group(1) if mm else "?"
             kind = {66: "sanitizer", 67: "crash", 68: "hang", 124: "timeout"}.get(rc, "exit%d" % rc)
             san = re.search(r"(ERROR: \w+Sanitizer: [^\n]*|runtime error: [^\n]*)", out)
-            ctx.reject("C16:%s:%s" % (fn, kind),
+            (ctx.reject if fn in in_scope_kinds() or fn == "?" else
+             (lambda sig, what, payload: observe(ctx, sig.replace("C16:", "C16:observed:", 1), what)))("C16:%s:%s" % (fn, kind),
                        "%s during %s (part %s): %s; truncated record: %s" % (
                            kind, fn, part, san.group(1) if san else out[-300:], (tail or "")[:300]),
                        {"part": part, "partial_line": tail})
@@ -182,18 +215,27 @@ def judge_parts(ctx, results):
         line = all_lines[b["l"] - 1]
         if "HARNESS-PRECONDITION" in b["why"] or "unknown-function" in b["why"]:
             raise vlib.Infra("harness record outside the spec's preconditions at line %d of %s: %s" % (b["l"], path, line[:300]))
+        real = [w for w in b["why"] if not w.startswith("observed-")]
+        if not real:
+            observe(ctx, "C16:observed:%s:%s" % (b["op"], "+".join(sorted(w[9:] for w in b["why"]))),
+                    "spec cannot explain %s (%s); record: %s" % (b["op"], ",".join(b["why"]), line[:500]))
+            continue
+        b = dict(b, why=real)
         ctx.reject(signature(b), "spec cannot explain %s (%s); record: %s" % (b["op"], ",".join(b["why"]), line[:500]),
                    {"part": part_of(b["l"]), "record": json.loads(line)})
     chosen = {}
-    for l in all_lines:
+    bad_lines = set(b["l"] for b in bad)
+    for ln, l in enumerate(all_lines, 1):
         e = json.loads(l)
         ctx.count_class(class_of(e))
+        if ln in bad_lines:
+            continue  # the guard corrupts records the judge accepted
         for fld in OBSERVED:
             if fld in e and (e["f"], fld) not in chosen:
                 c = corrupted(e[fld])
                 if c is not None:
                     chosen[(e["f"], fld)] = dict(e, **{fld: c})
-    if not bad:
+    if not bad:  # only on a run without any disagreement (rejected records are listed up to a cap)
         judge_guard(ctx, "AlgorithmsJudge", "AlgorithmsJudge.cfg", chosen)
     ends = [f for f, _ in spans[1:]] + [len(all_lines)]
     for (first, part), end in zip(spans, ends):
